@@ -322,7 +322,8 @@ func ctxApply(m *model.Model, s *ob.Set, fn *ssa.Function) {
 	in[0] = &st{}
 	work := []int{0}
 	okRet := true
-	var retPos string
+	okOrder := true
+	var retPos, orderPos string
 	isZ := func(v ssa.Value) bool { return m.RefOf(v).OnlyParam(1) }
 	step := func(b *ssa.BasicBlock, cur st, rec bool) st {
 		for _, insn := range b.Instrs {
@@ -338,6 +339,11 @@ func ctxApply(m *model.Model, s *ob.Set, fn *ssa.Function) {
 						cur.mode = true
 					}
 				case "(*Decimal).SetPrec":
+					// SetPrec rounds: the context's mode must already be in force
+					if rec && !cur.mode {
+						okOrder = false
+						orderPos = m.InstrPos(x)
+					}
 					if derivesFromCtxField(m, c.Args[1], "prec") {
 						cur.prec = true
 					}
@@ -410,6 +416,7 @@ func ctxApply(m *model.Model, s *ob.Set, fn *ssa.Function) {
 		}
 	}
 	s.Check(okRet, R, name, m.Pos(fn.Pos()), "every exit has z.SetMode(c.mode) and z.Prec()==c.prec, and returns z", "apply must leave z with the context's mode and precision on every path and return z (offending exit "+retPos+")")
+	s.Check(okOrder, R, name+"/mode-before-rounding", m.Pos(fn.Pos()), "z.SetMode(c.mode) precedes z.SetPrec on every path", "apply calls z.SetPrec (which rounds z to the context's precision) at "+orderPos+" on a path where the context's rounding mode has not been installed yet: the rounding runs under z's previous mode (observable through Context.Set/Neg/... whose z already holds the value)")
 }
 
 func ctxOperator(m *model.Model, s *ob.Set, fn *ssa.Function, nan map[*ssa.Function]bool) {
